@@ -996,3 +996,107 @@ func init() {
 			return out
 		}})
 }
+
+// ---- OUTPARAMW: every parameter named as an output is written
+
+// A polynomial / element parameter whose name says it is an output (polyOutQ, opOut, p2Out, ctOut, ...) has to be
+// among the parameters the function writes through (directly or through a callee). A function that no longer does —
+// because the copy into it was dropped, or a refactor routed the result elsewhere — leaves its caller with whatever
+// the receiver held.
+var outParamRe = regexp.MustCompile(`(^out$|Out$|Out[A-Z0-9]|^out[A-Z])`)
+
+func scanOutParamW(c *core.Ctx) []ob {
+	var out []ob
+	e := effectsOf(c.Program)
+	n := 0
+	var fns []*types.Func
+	for f := range e.decls {
+		fns = append(fns, f)
+	}
+	sort.Slice(fns, func(i, j int) bool { return fns[i].Pos() < fns[j].Pos() })
+	for _, f := range fns {
+		d := e.decls[f]
+		sig := f.Type().(*types.Signature)
+		fkey := core.FuncKey(d.pk, d.fd)
+		for i := 0; i < sig.Params().Len(); i++ {
+			p := sig.Params().At(i)
+			if !outParamRe.MatchString(p.Name()) || p.Name() == "skOut" || p.Name() == "skOutput" {
+				continue
+			}
+			if !(polyish(p.Type()) || isMetaCarrier(p.Type()) || strings.Contains(p.Type().String(), "ringqp.Poly") || strings.Contains(p.Type().String(), "ring.Poly")) {
+				continue
+			}
+			n++
+			key := fmt.Sprintf("OUTPARAMW:%s#%s", fkey, p.Name())
+			if e.sums[f].wParams[i] {
+				out = append(out, okOb("OUTPARAMW", key, c.Rel(d.fd.Pos()), "written: "+e.sums[f].wParamWit[i], true))
+				continue
+			}
+			// a metadata-only or header-only result (Resize, field stores) also counts as producing the output
+			wrote := false
+			ast.Inspect(d.fd.Body, func(x ast.Node) bool {
+				switch v := x.(type) {
+				case *ast.AssignStmt:
+					for _, l := range v.Lhs {
+						if id := rootIdent(l); id != nil && d.pk.TypesInfo.Uses[id] == types.Object(p) {
+							if _, plain := unparen(l).(*ast.Ident); !plain {
+								wrote = true
+							}
+						}
+					}
+				case *ast.CallExpr:
+					// handed to a callee outside the module's summaries (interface of another package, func value)
+					for _, a := range v.Args {
+						if id := rootIdent(a); id != nil && d.pk.TypesInfo.Uses[id] == types.Object(p) && len(e.callees(d.pk.TypesInfo, v)) == 0 {
+							wrote = true
+						}
+					}
+					if s, ok := unparen(v.Fun).(*ast.SelectorExpr); ok {
+						if id := rootIdent(s.X); id != nil && d.pk.TypesInfo.Uses[id] == types.Object(p) && (inPlaceRecvMethods[s.Sel.Name] || s.Sel.Name == "Resize") {
+							wrote = true
+						}
+					}
+				}
+				return !wrote
+			})
+			if wrote {
+				out = append(out, okOb("OUTPARAMW", key, c.Rel(d.fd.Pos()), "written through a field store, an in-place method or a callee without summary", false))
+			} else {
+				out = append(out, withProps(violOb("OUTPARAMW", key, c.Rel(d.fd.Pos()), fmt.Sprintf("%s never writes through its output parameter %s (neither directly nor through any callee): the caller's receiver keeps whatever it held", fkey, p.Name())), outParamProps(fkey)...))
+			}
+		}
+	}
+	c.Stats["outparamw_params"] = n
+	return out
+}
+
+func outParamProps(fkey string) []string {
+	switch {
+	case strings.HasPrefix(fkey, "ring/ringqp") || strings.HasPrefix(fkey, "ring."):
+		return []string{"C01", "C02"}
+	case strings.HasPrefix(fkey, "utils/"):
+		return []string{"C08"}
+	}
+	return bufProps(fkey)
+}
+
+func init() {
+	all := []string{"C01", "C02", "C04", "C05", "C06", "C07", "C11", "C12", "C13", "C14", "C16", "C18", "C20"}
+	core.Register(&core.Rule{Name: "OUTPARAMW", Props: all,
+		Doc: "every polynomial/element parameter whose name marks it as an output (…Out, out…) is among the parameters the function transitively writes through (write-effect summaries), or is written through a field store / in-place method",
+		Run: func(c *core.Ctx) []ob {
+			out := scanOutParamW(c)
+			for i := range out {
+				if len(out[i].Props) == 0 {
+					out[i].Props = outParamProps(strings.TrimPrefix(out[i].Key, "OUTPARAMW:"))
+				}
+			}
+			for _, o := range core.Floor("OUTPARAMW", nil, "output-named parameters", c.Stats["outparamw_params"], 100) {
+				out = append(out, withProps(o, all...))
+			}
+			for _, o := range control(c, "OUTPARAMW", scanOutParamW, "halfDone#bOut") {
+				out = append(out, withProps(o, all...))
+			}
+			return out
+		}})
+}
